@@ -381,7 +381,7 @@ def _same_but_time(got, want):
 
 
 # ------------------------------------------------------------------------------------ O2.5 export / import stability
-@ob('O2.5', 'a signature PGPy made still hashes to the signed octets after binary export and re-import (also when verified twice), '
+@ob('O2.5', 'a signature PGPy made still hashes to the signed octets after binary export and re-import (also when verified twice, and for a copy of the imported object), '
             'for text-valued hashed subpackets with arbitrary characters', 'policy URI and notation value of 0..1 symbolic characters each (all of Unicode); document of 0..1 symbolic octets',
     cond_timeout={'q': 280, 't': 900}, partitions=[['len(uri) == %d' % a, 'len(nval) == %d' % b] for a in range(2) for b in range(2)])
 def export_import_stable(doc: bytes, uri: str, nval: str) -> bool:
@@ -397,7 +397,57 @@ def export_import_stable(doc: bytes, uri: str, nval: str) -> bool:
     rx = PGPSignature.from_blob(wire)
     first = bytes(rx.hashdata(doc))
     second = bytes(rx.hashdata(doc))
-    return first == signed and second == signed and rx.__bytes__() == wire
+    if not (first == signed and second == signed and rx.__bytes__() == wire):
+        return False
+    # ... and so does a copy of the imported signature (what a derived public key or a copied key carries)
+    import copy as _copy
+    cp = _copy.copy(rx)
+    return bytes(cp.hashdata(doc)) == signed and cp.__bytes__() == wire
+
+
+# ------------------------------------------------------------------------------------ O2.6 certifications and user id text forms
+from vlib.h import native
+from pgpy.packet import Packet as _Packet
+NAMES = ('a', '\u00e9', 'e\u0301', '\u212b', '\u00c5', 'A\u030a', '\u1112\u1161\u11ab', '\ud55c', '\U0001F600', 'x <y@z>', ' a', '\ufb01', 'fi')
+
+
+def _cert_roundtrip(i, ctype):
+    name = NAMES[i]
+    Oracle.reset()
+    uid = PGPUID.new(name)
+    key = FakePrimary(b'kk')
+    uid._parent = key
+    sig = KEY.certify(uid, (SignatureType.Generic_Cert, SignatureType.Positive_Cert)[ctype], created=T0, hash=HashAlgorithm.SHA256)
+    signed = signed_octets()
+    # the user id packet and the certification travel as octets and come back
+    upkt = bytes(uid._uid.__bytearray__())
+    if upkt[2:] != name.encode('utf-8'):
+        return False
+    back = PGPUID()
+    back._uid = _Packet(bytearray(upkt))
+    back._parent = key
+    rx = PGPSignature.from_blob(sig.__bytes__())
+    return bytes(rx.hashdata(back)) == signed and bytes(back._uid.__bytearray__()) == upkt and back.name == uid.name
+
+
+@ob('O2.6', 'a certification PGPy made over a user id hashes to the signed octets after the user id packet and the signature were exported and re-imported - '
+            'for names in any Unicode normalisation form (nothing is normalised on the way in or out)',
+    'name by symbolic index from 13 (ASCII, precomposed / decomposed accents, compatibility code points U+212B U+FB01, Hangul jamo vs syllable, non-BMP, leading blank); generic / positive certification; native per path',
+    cond_timeout={'q': 200, 't': 600})
+def cert_roundtrip_names(i: int, ctype: int) -> bool:
+    """
+    pre: 0 <= i < 13
+    pre: 0 <= ctype < 2
+    post: _
+    """
+    a = c = 0
+    for k in range(13):
+        if i == k:
+            a = k
+    if ctype == 1:
+        c = 1
+    with native():
+        return _cert_roundtrip(a, c)
 
 
 # ------------------------------------------------------------------------------------ O2.3 left 16 bits
@@ -480,7 +530,7 @@ def sig_integers(alg: int, a0: int, a1: int, a2: int, b0: int, b1: int, b2: int,
     return int.from_bytes(got, 'big') == v and len(wire) == 0 and (v == 0 or got[0] != 0 or len(got) == 1)
 
 
-SANITY = ['hd_doc(0, b"ab\\n")', 'hd_doc(1, b"a\\nb\\r\\n")', 'hd_doc(1, b"\\n\\n")', 'hd_nosubj(2, 8)', 'hd_nosubj(0x40, 2)',
+SANITY = ['cert_roundtrip_names(%d, %d)' % (i, i % 2) for i in range(13)] + ['hd_doc(0, b"ab\\n")', 'hd_doc(1, b"a\\nb\\r\\n")', 'hd_doc(1, b"\\n\\n")', 'hd_nosubj(2, 8)', 'hd_nosubj(0x40, 2)',
           'hd_uid(0x13, "h\\u00e9", b"\\x04\\x01")', 'hd_uid(0x30, "", b"k")', 'hd_uid(0x10, "a b", b"\\xff")',
           'hd_attr(0x13, b"\\x01\\x02", b"\\x04")', 'hd_attr(0x30, b"", b"k")',
           'hd_key(0x1F, b"ab", b"cd")', 'hd_key(0x20, b"y", b"x")', 'hd_key(0x18, b"ab", b"cde")', 'hd_key(0x19, b"ab", b"c")', 'hd_key(0x28, b"a", b"b")',
